@@ -364,13 +364,8 @@ func (vfs *OrefaFS) Link(oldname, newname string) error {
 		return &os.LinkError{Op: op, Old: oldname, New: newname, Err: vfs.err.NotADirectory}
 	}
 
-	oChild.mu.Lock()
-	defer oChild.mu.Unlock()
-
-	nParent.mu.Lock()
-	defer nParent.mu.Unlock()
-
-	if oChild.mode.IsDir() {
+	// Tested before the locks below are taken: a directory may be the parent of newname.
+	if oChild.isDir() {
 		err := error(avfs.ErrOpNotPermitted)
 		if vfs.OSType() == avfs.OsWindows {
 			err = avfs.ErrWinAccessDenied
@@ -378,6 +373,12 @@ func (vfs *OrefaFS) Link(oldname, newname string) error {
 
 		return &os.LinkError{Op: op, Old: oldname, New: newname, Err: err}
 	}
+
+	oChild.mu.Lock()
+	defer oChild.mu.Unlock()
+
+	nParent.mu.Lock()
+	defer nParent.mu.Unlock()
 
 	if nChildOk {
 		err := vfs.err.FileExists
